@@ -5,6 +5,7 @@ import (
 	"sort"
 	"strings"
 	"sync"
+	"time"
 
 	"github.com/conduitio/conduit-commons/database"
 )
@@ -12,12 +13,16 @@ import (
 // VDB is a transactional in-memory database.DB whose commits (and, when enabled, writes) are gates of the world, and
 // which takes a full snapshot after every successful commit / non-transactional write.
 type VDB struct {
-	W *World
+	commitSeq int // commits seen (CommitDelays)
+	W         *World
 	// GateCommits makes every transaction commit and non-transactional Set a pending event (ordering + ok/fail).
 	GateCommits bool
 	// LateCommits names transaction commit gates "~late:db.commit#k": they sort after every other alternative, so by
 	// default a commit stays in flight until nothing else can run (exploration order only).
 	LateCommits bool
+	// CommitDelays makes the k-th transaction commit (0-based, counted over the life of the store) take that long (virtual
+	// time) before it is presented as a pending event: a slow but responding store.
+	CommitDelays []time.Duration
 	// LatePuts does the same for non-transactional Set calls ("~late:db.put[<key>]#k").
 	LatePuts bool
 	// FaultCommits adds the "fail" answer to commit gates; FaultSets gates every Set inside a transaction with {ok, fail}.
@@ -230,6 +235,16 @@ func (t *vtxn) Commit() error {
 	}
 	keys := append([]string(nil), t.order...)
 	sort.Strings(keys)
+	if d.GateCommits && d.W != nil && len(keys) > 0 && len(d.CommitDelays) > 0 {
+		d.mu.Lock()
+		k := d.commitSeq
+		d.commitSeq++
+		d.mu.Unlock()
+		if k < len(d.CommitDelays) && d.CommitDelays[k] > 0 {
+			d.W.Log("db", "slowcommit", k, d.CommitDelays[k].String())
+			time.Sleep(d.CommitDelays[k])
+		}
+	}
 	if d.GateCommits && d.W != nil && len(keys) > 0 {
 		menu := []string{"ok"}
 		if d.FaultCommits {
